@@ -46,6 +46,7 @@ ActionFor(label) ==
       [] label = "unlink_cbin" -> C!DUnlink1
       [] label = "unlink_ch" -> C!DUnlink2
       [] label = "copy_meta" -> C!SCopyMeta
+      [] label = "nocopy" -> C!SNoCopy       \* decompress_to_scratch(scratch_dir=None): branch without a metadata copy
       [] label = "unlink_stmp" -> C!SRmTmp
       [] label = "open_stmp" -> C!SOpen
       [] label = "move" -> C!SMove
